@@ -344,6 +344,13 @@ def r4(prog, rep):
         ok = dict_name is not None and isinstance(rg[0].keywords[0].value, ast.Name) and kw.get("nonorthogonal_settings") == dict_name and mesh_opts == dict_name
     rep.ob("R4", "the command-line entry point feeds one option dict to equilibrium, non-orthogonal and mesh options", ok, script.rel, "", key="prov/cli-dict")
     # the recorded non-orthogonal options are the ones in effect: rule instances of C15.R1
+    # reproducibility with number_of_processors > 1: results are assembled by task index, not by
+    # completion order (rule instances of C13.R1)
+    rep.rule("R5", "premise: the parallel map returns results in task order whatever the completion order (C13.R1)")
+    from ..report import Premise as _Premise
+    from . import c13 as _c13
+    _pm = prog.module(_c13.PM)
+    _c13.r1(_Premise(rep, "R5", "C13"), _pm, _pm.funcs.get("ParallelMap.__call__"), _pm.funcs.get("ParallelMap.worker_run"))
     from ..report import Premise
     from ..callgraph import CallGraph
     from . import c15
